@@ -7,4 +7,4 @@ CONSTANTS
   MaxPeeks = 2
   Parts = {"rd"}
 SPECIFICATION Spec
-INVARIANTS TypeOK NoLossNoDup ResultIsNext LenExact PeekStable CopiesValid FlushComplete ShortOnlyAtError SinkPrefix
+INVARIANTS TypeOK NoLossNoDup ResultIsNext LenExact PeekStable CopiesValid FlushComplete ShortOnlyAtError SinkPrefix CallerIntact
